@@ -31,6 +31,130 @@ theorem union_child {p fs types offs cur} {i : Nat} {c : B} {m : FieldMeta} {ufs
   simp only [Nat.zero_add] at hufs
   exact ⟨(WFU_get _ _ _ _ hwf.2.2.1 hget).2, SafeL.get _ _ _ hs hget, fname, fdt, fn, fmd, hufs, hshc⟩
 
+/-- what the induction hypothesis for `pushTupleElems` provides: field `j ≥ next` receives element `j - next`, fields
+before `next` are not touched -/
+def TuplePhys (ext : Ext) (un : Bytes → String) (xs : SVals) : Prop :=
+  ∀ (fs0 : BL) (s s' : SS) (adds : List (List LVal)) (sfs : Fields), Mid fs0 s adds → ShapeL s.fields sfs →
+    pushTupleElems ext s xs = .ok s' →
+    ∀ j f found, sfs.toList[j]? = some f → (j < s.next → ChildRel un s s' j []) ∧
+      (s.next ≤ j → interpNth ext f.dataType f.nullable f.metadata (j - s.next) xs = .ok found → ChildRel un s s' j found)
+
+/-- what the induction hypothesis for `pushFields` provides -/
+def FieldsPhys (ext : Ext) (un : Bytes → String) (fields : SFields) : Prop :=
+  ∀ (fs0 : BL) (s s' : SS) (adds : List (List LVal)) (sfs : Fields), Mid fs0 s adds → ShapeL s.fields sfs →
+    pushFields ext s fields = .ok s' →
+    ∀ j f found, sfs.toList[j]? = some f →
+      interpByName ext f.name f.dataType f.nullable f.metadata fields = .ok found → ChildRel un s s' j found
+
+/-- a positional record (tuple, tuple struct, tuple variant) into a struct builder -/
+theorem tuple_phys (ext : Ext) (un : Bytes → String) (xs : SVals) (hloop : TuplePhys ext un xs)
+    {p len v fs cached next seen} {b' : B} {dt : DataType} {n : Bool} {md : Metadata} {lv : LVal}
+    (hwf : WFB (.struct p len v fs cached next seen)) (hs : Safe (.struct p len v fs cached next seen))
+    (hsh : Shape (.struct p len v fs cached next seen) dt n md)
+    (h : (do
+      let s ← SS.start ⟨p, len, v, fs, cached, next, seen⟩
+      let s ← pushTupleElems ext s xs
+      let s ← s.finishRow
+      pure s.toB : R B) = .ok b')
+    (hi : seqSpec ext true dt md xs = .ok lv) :
+    pushL un lv (erase (.struct p len v fs cached next seen)) = erase b' := by
+  have hsh' := hsh
+  simp only [Shape] at hsh'
+  obtain ⟨_, sfs, rfl, hsl⟩ := hsh'
+  simp only [seqSpec, isUnknownVariant, Bool.false_eq_true, if_false, if_true] at hi
+  have hnd : fs.names.Nodup := by simp only [WFB] at hwf; exact hwf.2.2.2.1
+  refine record_phys (pf := fun s => pushTupleElems ext s xs) _ hwf hs hsl (pushTupleElems_appends ext xs) ?_ h hi
+  intro s1 s2 hn0 hf1 hm1 hp j f found hj hc
+  have hidx : indexOfName (sfs.toList.map Field.name) f.name = some j := by
+    rw [← ShapeL.names fs sfs hsl]
+    exact SaModel.Props.C11Front.indexOfName_of_get _ hnd _ j (names_at hsl hj)
+  rw [hidx, Option.getD_some] at hc
+  exact (hloop fs s1 s2 _ sfs hm1 (by rw [hf1]; exact hsl) hp j f found hj).2
+    (by omega) (by rw [hn0]; exact hc)
+
+/-- a struct presentation (record, struct variant) into a struct builder -/
+theorem fields_phys (ext : Ext) (un : Bytes → String) (fields : SFields) (hloop : FieldsPhys ext un fields)
+    {p len v fs cached next seen} {b' : B} {sfs : Fields} {n : Bool} {md : Metadata} {lv : LVal}
+    (hwf : WFB (.struct p len v fs cached next seen)) (hs : Safe (.struct p len v fs cached next seen))
+    (hsh : Shape (.struct p len v fs cached next seen) (.struct sfs) n md)
+    (h : (do
+      let s ← SS.start ⟨p, len, v, fs, cached, next, seen⟩
+      let s ← pushFields ext s fields
+      let s ← s.finishRow
+      pure s.toB : R B) = .ok b')
+    (hi : structOf sfs.toList (fun f => interpByName ext f.name f.dataType f.nullable f.metadata fields) = .ok lv) :
+    pushL un lv (erase (.struct p len v fs cached next seen)) = erase b' := by
+  have hsh' := hsh
+  simp only [Shape] at hsh'
+  obtain ⟨_, sfs', hsfs, hsl⟩ := hsh'
+  cases hsfs
+  refine record_phys (pf := fun s => pushFields ext s fields) _ hwf hs hsl (pushFields_appends ext fields) ?_ h hi
+  intro s1 s2 _ hf1 hm1 hp j f found hj hc
+  exact hloop fs s1 s2 _ sfs hm1 (by rw [hf1]; exact hsl) hp j f found hj hc
+
+/-- the value of a tuple variant is a positional presentation at the variant's type -/
+theorem interpDT_tupleVariant_inv (ext : Ext) (ufs : UFields) (mode : UnionMode) (n : Bool) (md : Metadata) (a : String)
+    (i : Nat) (vn : String) (xs : SVals) (tid : Int) (nm : String) (cdt : DataType) (cn : Bool) (cmd : Metadata)
+    (lv : LVal) (hufs : ufs.toList[i]? = some (tid, .mk nm cdt cn cmd))
+    (h : interpDT ext (.union ufs mode) n md (.tupleVariant a i vn xs) = .ok lv) :
+    ∃ lvc, seqSpec ext true cdt cmd xs = .ok lvc ∧ lv = .union tid lvc := by
+  simp only [interpDT, hufs] at h
+  unfold seqSpec
+  by_cases hu : isUnknownVariant cdt cmd = true
+  · simp [hu, fail] at h
+  · simp only [hu, Bool.false_eq_true, if_false] at h ⊢
+    cases cdt
+    case struct cfs =>
+      simp only [if_true] at h ⊢
+      obtain ⟨r, hr, h⟩ := (bind_ok _ _ _).1 h
+      cases h
+      exact ⟨r, hr, rfl⟩
+    case list f =>
+      cases f
+      simp only at h ⊢
+      obtain ⟨r, hr, h⟩ := (bind_ok _ _ _).1 h
+      cases h
+      exact ⟨_, by simp [hr, bind, Except.bind, pure, Except.pure], rfl⟩
+    case largeList f =>
+      cases f
+      simp only at h ⊢
+      obtain ⟨r, hr, h⟩ := (bind_ok _ _ _).1 h
+      cases h
+      exact ⟨_, by simp [hr, bind, Except.bind, pure, Except.pure], rfl⟩
+    case fixedSizeList f k =>
+      cases f
+      simp only at h ⊢
+      obtain ⟨r, hr, h⟩ := (bind_ok _ _ _).1 h
+      split at h
+      · rename_i hk
+        cases h
+        exact ⟨_, by simp [hr, hk, bind, Except.bind, pure, Except.pure], rfl⟩
+      · simp [fail] at h
+    case binary =>
+      simp only at h ⊢
+      obtain ⟨r, hr, h⟩ := (bind_ok _ _ _).1 h
+      cases h
+      exact ⟨_, by simp [hr, bind, Except.bind, pure, Except.pure], rfl⟩
+    case largeBinary =>
+      simp only at h ⊢
+      obtain ⟨r, hr, h⟩ := (bind_ok _ _ _).1 h
+      cases h
+      exact ⟨_, by simp [hr, bind, Except.bind, pure, Except.pure], rfl⟩
+    case binaryView =>
+      simp only at h ⊢
+      obtain ⟨r, hr, h⟩ := (bind_ok _ _ _).1 h
+      cases h
+      exact ⟨_, by simp [hr, bind, Except.bind, pure, Except.pure], rfl⟩
+    case fixedSizeBinary k =>
+      simp only at h ⊢
+      obtain ⟨r, hr, h⟩ := (bind_ok _ _ _).1 h
+      split at h
+      · rename_i hk
+        cases h
+        exact ⟨_, by simp [hr, hk, bind, Except.bind, pure, Except.pure], rfl⟩
+      · simp [fail] at h
+    all_goals (simp only [fail] at h; cases h)
+
 mutual
 theorem push_phys (ext : Ext) (un : Bytes → String) (hun : ∀ s, un (strBytes s) = s) :
     ∀ (x : SVal) (b b' : B) (dt : DataType) (n : Bool) (md : Metadata) (lv : LVal),
@@ -76,7 +200,7 @@ theorem push_phys (ext : Ext) (un : Bytes → String) (hun : ∀ s, un (strBytes
     cases b with
     | struct p len v fs cached next seen =>
       simp only [seqLikeWith] at h
-      exact tuple_phys ext un hun xs hraw' hwf hs hsh h hi
+      exact tuple_phys ext un xs (pushTupleElems_phys ext un hun xs hraw') hwf hs hsh h hi
     | _ =>
       exact seqLike_phys (pushElems_phys ext un hun xs hraw') (pushCountElems_phys ext un hun xs hraw') _ .tuple b' dt n md lv
         hwf hs hsh (by intro _ _ _ _ _ _ _ hc; cases hc) h hi
@@ -86,7 +210,7 @@ theorem push_phys (ext : Ext) (un : Bytes → String) (hun : ∀ s, un (strBytes
     cases b with
     | struct p len v fs cached next seen =>
       simp only [seqLikeWith] at h
-      exact tuple_phys ext un hun xs hraw' hwf hs hsh h hi
+      exact tuple_phys ext un xs (pushTupleElems_phys ext un hun xs hraw') hwf hs hsh h hi
     | _ =>
       exact seqLike_phys (pushElems_phys ext un hun xs hraw') (pushCountElems_phys ext un hun xs hraw') _ .tupleStruct b' dt n md lv
         hwf hs hsh (by intro _ _ _ _ _ _ _ hc; cases hc) h hi
@@ -95,10 +219,11 @@ theorem push_phys (ext : Ext) (un : Bytes → String) (hun : ∀ s, un (strBytes
     cases b with
     | struct p len v fs cached next seen =>
       simp only [push, ctx_ok, recordWith] at h
-      exact fields_phys ext un hun fields hraw' hwf hs hsh h (by
-        simp only [Shape] at hsh
-        obtain ⟨_, sfs, rfl, _⟩ := hsh
-        simpa only [interpDT, isUnknownVariant, Bool.false_eq_true, if_false] using hi)
+      have hsh' := hsh
+      simp only [Shape] at hsh'
+      obtain ⟨_, sfs, rfl, _⟩ := hsh'
+      simp only [interpDT, isUnknownVariant, Bool.false_eq_true, if_false] at hi
+      exact fields_phys ext un fields (pushFields_phys ext un hun fields hraw') hwf hs hsh h hi
     | _ => simp [push, ctx_ok, recordWith, notSupported, fail] at h
   | .map es, b, b', dt, n, md, lv, hraw, hwf, hs, hsh, h, hi => by
     have hraw' : noRawe es = true := by simpa [noRaw] using hraw
@@ -160,7 +285,6 @@ theorem push_phys (ext : Ext) (un : Bytes → String) (hun : ∀ s, un (strBytes
           | .unknownVariant _ => ctx c.ann (fail "Unknown variant does not support serialize_unit")
           | _ => pushNone c) rfl h ?_
       intro c m c' _ hpc
-      simp only at hpc
       split at hpc
       · simp [ctx_ok, fail] at hpc
       · simp only [pushL]; exact noneL_erase hpc
@@ -201,49 +325,7 @@ theorem push_phys (ext : Ext) (un : Bytes → String) (hun : ∀ s, un (strBytes
       obtain ⟨⟨c0, t0, o0, cur0⟩, hsv, hrest⟩ := (bind_ok _ _ _).1 h
       obtain ⟨m0, _, hget0, _⟩ := serializeVariant_ok hsv
       obtain ⟨hwc, hsc, fname, fdt, fn, fmd, hufs, hshc⟩ := union_child hwf hs hsu hget0
-      -- the variant's value: a positional presentation at the child's type
-      have hi' : ∃ lvc, seqSpec ext true fdt fmd xs = .ok lvc ∧ lv = .union (i : Int) lvc := by
-        cases hsp : seqSpec ext true fdt fmd xs with
-        | ok lvc =>
-          rw [interpDT_tupleVariant ext ufs mode n md _ i _ xs _ fname fdt fn fmd lvc hufs hsp] at hi
-          cases hi
-          exact ⟨lvc, rfl, rfl⟩
-        | error e =>
-          exfalso
-          simp only [interpDT, hufs] at hi
-          unfold seqSpec at hsp
-          by_cases hu : isUnknownVariant fdt fmd = true
-          · simp [hu, fail] at hi
-          · simp only [hu, Bool.false_eq_true, if_false] at hi hsp
-            cases fdt
-            case struct cfs => simp only [if_true] at hsp; rw [hsp] at hi; simp [bind, Except.bind] at hi
-            case list f =>
-              cases f
-              simp only at hi hsp
-              cases hh : interpAll ext _ _ _ xs <;> rw [hh] at hi hsp <;> simp [bind, Except.bind, pure, Except.pure] at hi hsp
-            case largeList f =>
-              cases f
-              simp only at hi hsp
-              cases hh : interpAll ext _ _ _ xs <;> rw [hh] at hi hsp <;> simp [bind, Except.bind, pure, Except.pure] at hi hsp
-            case fixedSizeList f k =>
-              cases f
-              simp only at hi hsp
-              cases hh : interpAll ext _ _ _ xs <;> rw [hh] at hi hsp <;> simp [bind, Except.bind, pure, Except.pure] at hi hsp
-              split at hi <;> simp_all [fail]
-            case binary =>
-              simp only at hi hsp
-              cases hh : u8All xs <;> rw [hh] at hi hsp <;> simp [bind, Except.bind, pure, Except.pure] at hi hsp
-            case largeBinary =>
-              simp only at hi hsp
-              cases hh : u8All xs <;> rw [hh] at hi hsp <;> simp [bind, Except.bind, pure, Except.pure] at hi hsp
-            case binaryView =>
-              simp only at hi hsp
-              cases hh : u8All xs <;> rw [hh] at hi hsp <;> simp [bind, Except.bind, pure, Except.pure] at hi hsp
-            case fixedSizeBinary k =>
-              simp only at hi hsp
-              cases hh : u8All xs <;> rw [hh] at hi hsp <;> simp [bind, Except.bind, pure, Except.pure] at hi hsp
-              split at hi <;> simp_all [fail]
-            all_goals (simp only [fail] at hi; cases hi)
+      have hi' := interpDT_tupleVariant_inv ext ufs mode n md _ i _ xs _ fname fdt fn fmd lv hufs hi
       obtain ⟨lvc, hsp, rfl⟩ := hi'
       refine union_row_phys (pc := fun c => ctx c.ann (seqLikeWith (fun large el offs => pushElems ext large el offs xs)
         (fun el c => pushCountElems ext el c xs) (fun s => pushTupleElems ext s xs) (u8All xs) c .tupleStruct)) rfl h ?_
@@ -254,7 +336,7 @@ theorem push_phys (ext : Ext) (un : Bytes → String) (hun : ∀ s, un (strBytes
       cases c0 with
       | struct p' len' v' fs' cached' next' seen' =>
         simp only [seqLikeWith] at hpc
-        exact tuple_phys ext un hun xs hraw' hwc hsc hshc hpc hsp
+        exact tuple_phys ext un xs (pushTupleElems_phys ext un hun xs hraw') hwc hsc hshc hpc hsp
       | _ =>
         exact seqLike_phys (pushElems_phys ext un hun xs hraw') (pushCountElems_phys ext un hun xs hraw') _ .tupleStruct c' fdt fn fmd lvc
           hwc hsc hshc (by intro _ _ _ _ _ _ _ hc; cases hc) hpc hsp
@@ -289,7 +371,7 @@ theorem push_phys (ext : Ext) (un : Bytes → String) (hun : ∀ s, un (strBytes
         rw [hget0] at hget; cases hget
         rw [ctx_ok] at hpc
         simp only [recordWith] at hpc
-        exact fields_phys ext un hun fields hraw' hwc hsc hshc hpc hlvc
+        exact fields_phys ext un fields (pushFields_phys ext un hun fields hraw') hwc hsc hshc hpc hlvc
       | _ => simp [recordWith, notSupported, fail] at hpc1
     | bytes _ ty _ _ _ => simp only [push, ctx_ok] at h; split at h <;> simp [notSupported, fail] at h
     | bytesView _ ty _ _ _ => simp only [push, ctx_ok] at h; split at h <;> simp [notSupported, fail] at h
@@ -353,56 +435,6 @@ theorem push_phys (ext : Ext) (un : Bytes → String) (hun : ∀ s, un (strBytes
     · simp [fail] at hi
     · exact pushScalar_phys ext un hun _ _ b' dt n md lv hsh h hi
 
-/-- a positional record (tuple, tuple struct, tuple variant) into a struct builder -/
-theorem tuple_phys (ext : Ext) (un : Bytes → String) (hun : ∀ s, un (strBytes s) = s) (xs : SVals) (hraw : noRaws xs = true)
-    {p len v fs cached next seen} {b' : B} {dt : DataType} {n : Bool} {md : Metadata} {lv : LVal}
-    (hwf : WFB (.struct p len v fs cached next seen)) (hs : Safe (.struct p len v fs cached next seen))
-    (hsh : Shape (.struct p len v fs cached next seen) dt n md)
-    (h : (do
-      let s ← SS.start ⟨p, len, v, fs, cached, next, seen⟩
-      let s ← pushTupleElems ext s xs
-      let s ← s.finishRow
-      pure s.toB : R B) = .ok b')
-    (hi : seqSpec ext true dt md xs = .ok lv) :
-    pushL un lv (erase (.struct p len v fs cached next seen)) = erase b' := by
-  have hsh' := hsh
-  simp only [Shape] at hsh'
-  obtain ⟨_, sfs, rfl, hsl⟩ := hsh'
-  simp only [seqSpec, isUnknownVariant, Bool.false_eq_true, if_false, if_true] at hi
-  have hnd : fs.names.Nodup := by simp only [WFB] at hwf; exact hwf.2.2.2.1
-  refine record_phys (pf := fun s => pushTupleElems ext s xs) _ hwf hs hsl (pushTupleElems_appends ext xs) ?_ h hi
-  intro s1 s2 hn0 hf1 hm1 hp j f found hj hc
-  have hidx : indexOfName (sfs.toList.map Field.name) f.name = some j := by
-    rw [← ShapeL.names fs sfs hsl]
-    exact SaModel.Props.C11Front.indexOfName_of_get _ hnd _ j (names_at hsl hj)
-  rw [hidx, Option.getD_some] at hc
-  have := (pushTupleElems_phys ext un hun xs fs s1 s2 _ sfs hraw hm1 (by rw [hf1]; exact hsl) hp j f found hj).2
-    (by omega) (by rw [hn0]; exact hc)
-  exact this
-termination_by structural xs
-
-/-- a struct presentation (record, struct variant) into a struct builder -/
-theorem fields_phys (ext : Ext) (un : Bytes → String) (hun : ∀ s, un (strBytes s) = s) (fields : SFields)
-    (hraw : noRawf fields = true)
-    {p len v fs cached next seen} {b' : B} {sfs : Fields} {n : Bool} {md : Metadata} {lv : LVal}
-    (hwf : WFB (.struct p len v fs cached next seen)) (hs : Safe (.struct p len v fs cached next seen))
-    (hsh : Shape (.struct p len v fs cached next seen) (.struct sfs) n md)
-    (h : (do
-      let s ← SS.start ⟨p, len, v, fs, cached, next, seen⟩
-      let s ← pushFields ext s fields
-      let s ← s.finishRow
-      pure s.toB : R B) = .ok b')
-    (hi : structOf sfs.toList (fun f => interpByName ext f.name f.dataType f.nullable f.metadata fields) = .ok lv) :
-    pushL un lv (erase (.struct p len v fs cached next seen)) = erase b' := by
-  have hsh' := hsh
-  simp only [Shape] at hsh'
-  obtain ⟨_, sfs', hsfs, hsl⟩ := hsh'
-  cases hsfs
-  refine record_phys (pf := fun s => pushFields ext s fields) _ hwf hs hsl (pushFields_appends ext fields) ?_ h hi
-  intro s1 s2 _ hf1 hm1 hp j f found hj hc
-  exact pushFields_phys ext un hun fields fs s1 s2 _ sfs hraw hm1 (by rw [hf1]; exact hsl) hp j f found hj hc
-termination_by structural fields
-
 theorem pushElems_phys (ext : Ext) (un : Bytes → String) (hun : ∀ s, un (strBytes s) = s) : ∀ (xs : SVals), noRaws xs = true →
     ElemsPhys ext un xs (fun large el offs => pushElems ext large el offs xs)
   | .nil, _ => by
@@ -430,9 +462,9 @@ theorem pushElems_phys (ext : Ext) (un : Bytes → String) (hun : ∀ s, un (str
     subst ho
     have := incrementLast_snoc h1
     subst this
-    rw [ih2 base (l + 1) rfl]
-    simp only [List.length_cons, Nat.cast_add, Nat.cast_one]
-    congr 2; omega
+    rw [ih2 base (l + 1) rfl, List.length_cons]
+    have e : l + 1 + (ls'.length : Int) = l + ((ls'.length + 1 : Nat) : Int) := by omega
+    rw [e]
 
 theorem pushCountElems_phys (ext : Ext) (un : Bytes → String) (hun : ∀ s, un (strBytes s) = s) : ∀ (xs : SVals), noRaws xs = true →
     CountPhys ext un xs (fun el c => pushCountElems ext el c xs)
@@ -460,17 +492,16 @@ theorem pushCountElems_phys (ext : Ext) (un : Bytes → String) (hun : ∀ s, un
 
 /-- positional records: field `j ≥ next` receives element `j - next`, fields before `next` are not touched -/
 theorem pushTupleElems_phys (ext : Ext) (un : Bytes → String) (hun : ∀ s, un (strBytes s) = s) :
-    ∀ (xs : SVals) (fs0 : BL) (s s' : SS) (adds : List (List LVal)) (sfs : Fields), noRaws xs = true →
-    Mid fs0 s adds → ShapeL s.fields sfs → pushTupleElems ext s xs = .ok s' →
-    ∀ j f found, sfs.toList[j]? = some f → (j < s.next → ChildRel un s s' j []) ∧
-      (s.next ≤ j → interpNth ext f.dataType f.nullable f.metadata (j - s.next) xs = .ok found → ChildRel un s s' j found)
-  | .nil, fs0, s, s', adds, sfs, _, _, _, h => by
+    ∀ (xs : SVals), noRaws xs = true → TuplePhys ext un xs
+  | .nil, _ => by
+    intro fs0 s s' adds sfs _ _ h
     simp only [pushTupleElems] at h; cases h
     intro j f found _
     refine ⟨fun _ => ChildRel.refl un s j, fun _ hf => ?_⟩
     simp only [interpNth] at hf; cases hf
     exact ChildRel.refl un s j
-  | .cons x rest, fs0, s, s', adds, sfs, hraw, hm, hsl, h => by
+  | .cons x rest, hraw => by
+    intro fs0 s s' adds sfs hm hsl h
     have hraw' : noRaw x = true ∧ noRaws rest = true := by simpa [noRaws] using hraw
     simp only [pushTupleElems] at h
     split at h
@@ -482,7 +513,7 @@ theorem pushTupleElems_phys (ext : Ext) (un : Bytes → String) (hun : ∀ s, un
       obtain ⟨fi, hji, hshc, _, _⟩ := ShapeL.get _ _ _ _ _ hsl hget
       have hsl1 : ShapeL s1.fields sfs := by
         rw [hfs1]; exact ShapeL.set_push hsl hget (push_takeRest ext x c c' hpc)
-      have ih := pushTupleElems_phys ext un hun rest fs0 s1 s' _ sfs hraw'.2 hm1 hsl1 h
+      have ih := pushTupleElems_phys ext un hun rest hraw'.2 fs0 s1 s' _ sfs hm1 hsl1 h
       intro j f found hj
       obtain ⟨ih1, ih2⟩ := ih j f found hj
       rw [hnext] at ih1 ih2
@@ -505,23 +536,22 @@ theorem pushTupleElems_phys (ext : Ext) (un : Bytes → String) (hun : ∀ s, un
           simp only [interpNth] at hf
           exact ChildRel.step_ne hij hfs1 hs1 (ih2 (by omega) hf)
     · rename_i hge
-      have ih := pushTupleElems_phys ext un hun rest fs0 s s' adds sfs hraw'.2 hm hsl h
+      have ih := pushTupleElems_phys ext un hun rest hraw'.2 fs0 s s' adds sfs hm hsl h
       intro j f found hj
       obtain ⟨ih1, _⟩ := ih j f found hj
       have hjlt : j < s.fields.length := by rw [← hsl.length]; exact get?_lt_length hj
       exact ⟨ih1, fun hle => absurd hjlt (by omega)⟩
 
 theorem pushFields_phys (ext : Ext) (un : Bytes → String) (hun : ∀ s, un (strBytes s) = s) :
-    ∀ (fields : SFields) (fs0 : BL) (s s' : SS) (adds : List (List LVal)) (sfs : Fields), noRawf fields = true →
-    Mid fs0 s adds → ShapeL s.fields sfs → pushFields ext s fields = .ok s' →
-    ∀ j f found, sfs.toList[j]? = some f →
-      interpByName ext f.name f.dataType f.nullable f.metadata fields = .ok found → ChildRel un s s' j found
-  | .nil, fs0, s, s', adds, sfs, _, _, _, h => by
+    ∀ (fields : SFields), noRawf fields = true → FieldsPhys ext un fields
+  | .nil, _ => by
+    intro fs0 s s' adds sfs _ _ h
     simp only [pushFields] at h; cases h
     intro j f found _ hf
     simp only [interpByName] at hf; cases hf
     exact ChildRel.refl un s j
-  | .cons key al x rest, fs0, s, s', adds, sfs, hraw, hm, hsl, h => by
+  | .cons key al x rest, hraw => by
+    intro fs0 s s' adds sfs hm hsl h
     have hraw' : noRaw x = true ∧ noRawf rest = true := by simpa [noRawf] using hraw
     simp only [pushFields] at h
     have hls := SaModel.Props.C11Front.lookup_sound s.fields.names s.cached s.next (key, al) hm.nodup hm.cache
@@ -529,13 +559,13 @@ theorem pushFields_phys (ext : Ext) (un : Bytes → String) (hun : ∀ s, un (st
     · rename_i cached' heq
       rw [heq] at hls
       have hnone : indexOfName s.fields.names key = none := hls.1.symm
-      have ih := pushFields_phys ext un hun rest fs0 _ s' adds sfs hraw'.2 (hm.cached cached' hls.2) hsl h
+      have ih := pushFields_phys ext un hun rest hraw'.2 fs0 _ s' adds sfs (hm.cached cached' hls.2) hsl h
       intro j f found hj hf
       have hne := key_none hm.nodup hnone (names_at hsl hj)
       simp only [interpByName, hne, Bool.false_eq_true, if_false] at hf
       obtain ⟨vs, hvs, hf⟩ := (bind_ok _ _ _).1 hf
       cases hf
-      exact ChildRel.of_eq rfl rfl (ih j f vs hj hvs)
+      exact ChildRel.of_eq rfl rfl (ih j f _ hj hvs)
     · rename_i idx cached' heq
       rw [heq] at hls
       have hidx : indexOfName s.fields.names key = some idx := hls.1.symm
@@ -548,7 +578,7 @@ theorem pushFields_phys (ext : Ext) (un : Bytes → String) (hun : ∀ s, un (st
       obtain ⟨fi, hji, hshc, _, _⟩ := ShapeL.get _ _ _ _ _ hsl hget
       have hsl1 : ShapeL s1.fields sfs := by
         rw [hfs1]; exact ShapeL.set_push hsl hget (push_takeRest ext x c c' hpc)
-      have ih := pushFields_phys ext un hun rest fs0 s1 s' _ sfs hraw'.2 hm1 hsl1 h
+      have ih := pushFields_phys ext un hun rest hraw'.2 fs0 s1 s' _ sfs hm1 hsl1 h
       intro j f found hj hf
       have hk := key_at hm.nodup hidx (names_at hsl hj)
       simp only [interpByName] at hf
@@ -561,11 +591,11 @@ theorem pushFields_phys (ext : Ext) (un : Bytes → String) (hun : ∀ s, un (st
         obtain ⟨lv, hlv, hf⟩ := (bind_ok _ _ _).1 hf
         cases hf
         have hx := push_phys ext un hun x c c' _ _ _ lv hraw'.1 hwc hsc hshc hpc hlv
-        exact ChildRel.step_eq (s := s) hget hseen hfs1 hs1 hx (ih idx fi vs hji hvs)
+        exact ChildRel.step_eq (s := s) hget hseen hfs1 hs1 hx (ih idx fi _ hji hvs)
       · simp only [hij, decide_false] at hk
         simp only [hk, Bool.false_eq_true, if_false] at hf
         cases hf
-        exact ChildRel.step_ne (s := s) hij hfs1 hs1 (ih j f vs hj hvs)
+        exact ChildRel.step_ne (s := s) hij hfs1 hs1 (ih j f _ hj hvs)
 
 theorem pushStructEntries_phys (ext : Ext) (un : Bytes → String) (hun : ∀ s, un (strBytes s) = s) :
     ∀ (es : SEntries) (fs0 : BL) (s s' : SS) (adds : List (List LVal)) (sfs : Fields), noRawe es = true →
@@ -591,7 +621,7 @@ theorem pushStructEntries_phys (ext : Ext) (un : Bytes → String) (hun : ∀ s,
       simp only [interpByKey, hopt, hne, Bool.false_eq_true, if_false] at hf
       obtain ⟨vs, hvs, hf⟩ := (bind_ok _ _ _).1 hf
       cases hf
-      exact ChildRel.of_eq rfl rfl (ih j f vs hj hvs)
+      exact ChildRel.of_eq rfl rfl (ih j f _ hj hvs)
     · rename_i idx hidx
       obtain ⟨s1, h1, h⟩ := (bind_ok _ _ _).1 h
       obtain ⟨c, m, c', lv0, hget, hseen, hpc, hwc, hsc, _, hm1, _, _, _, hfs1, _⟩ :=
@@ -613,11 +643,11 @@ theorem pushStructEntries_phys (ext : Ext) (un : Bytes → String) (hun : ∀ s,
         obtain ⟨lv, hlv, hf⟩ := (bind_ok _ _ _).1 hf
         cases hf
         have hx := push_phys ext un hun x c c' _ _ _ lv hraw'.1.2 hwc hsc hshc hpc hlv
-        exact ChildRel.step_eq (s := s) hget hseen hfs1 hs1 hx (ChildRel.of_eq rfl rfl (ih idx fi vs hji hvs))
+        exact ChildRel.step_eq (s := s) hget hseen hfs1 hs1 hx (ChildRel.of_eq rfl rfl (ih idx fi _ hji hvs))
       · simp only [hij, decide_false] at hk
         simp only [hk, Bool.false_eq_true, if_false] at hf
         cases hf
-        exact ChildRel.step_ne (s := s) hij hfs1 hs1 (ChildRel.of_eq rfl rfl (ih j f vs hj hvs))
+        exact ChildRel.step_ne (s := s) hij hfs1 hs1 (ChildRel.of_eq rfl rfl (ih j f _ hj hvs))
 
 theorem pushMapEntries_phys (ext : Ext) (un : Bytes → String) (hun : ∀ s, un (strBytes s) = s) :
     ∀ (es : SEntries) (offs : List Int) (ks vs : B) (r : List Int × B × B)
@@ -654,9 +684,9 @@ theorem pushMapEntries_phys (ext : Ext) (un : Bytes → String) (hun : ∀ s, un
     subst ho
     have := incrementLast_snoc h1
     subst this
-    rw [ih3 base (l + 1) rfl]
-    simp only [List.length_cons, Nat.cast_add, Nat.cast_one]
-    congr 2; omega
+    rw [ih3 base (l + 1) rfl, List.length_cons]
+    have e : l + 1 + (ents'.length : Int) = l + ((ents'.length + 1 : Nat) : Int) := by omega
+    rw [e]
 end
 
 end SaModel.Build
